@@ -70,17 +70,87 @@ def cases(rng, tier):
                 cfg = dict(cfg); cfg["notes"] = True
                 kind = "kill+notes"
             out.append(shardprop.mk_case(kind, cfg, ntypes, nctx, ops))
+    return out + define_fault_cases(rng.fork("define-fault"), tier)
+
+
+def define_fault_cases(rng, tier):
+    """Oracle-only: a DEFINE that cannot be persisted (another process holds the shared lock of schemas.bin, as a
+    schema reader does), optionally retried after the lock is gone, then STOREs, kill, restart: whatever STORE was
+    acknowledged is readable after the restart (an event type that exists only in memory loses its events)."""
+    out = []
+    for j in range(2 if tier == "quick" else 12):
+        out.append({"kind": "define-fault", "cfg": dict(rng.choice(shardprop.CFGS)), "retry": j % 2 == 0, "nstores": rng.range(1, 5),
+                    "ntypes": 1, "nctx": 1, "ops": [],
+                    "show": f"define-fault: DEFINE under a foreign shared lock of schemas.bin, {'retry, ' if j % 2 == 0 else ''}STOREs, kill, restart, QUERY"})
     return out
 
 
-run_sides = shardprop.run_sides
-same = shardprop.same
-diffs = shardprop.diffs
+def _run_define_fault(c):
+    import fcntl, glob, os
+    import engine
+    e = engine.Engine(shards=1, **{k: v for k, v in c["cfg"].items() if k in ("fill_factor", "event_per_zone")})
+    res = {"ok": False, "line": "define-fault", "obs": [], "acked": [], "steps": []}
+    try:
+        e.start()
+        e.cmd('DEFINE pre FIELDS { k: "int" }')        # creates schemas.bin
+        f = glob.glob(os.path.join(e.root, "schema", "*"))[0]
+        fd = os.open(f, os.O_RDONLY)
+        fcntl.flock(fd, fcntl.LOCK_SH)
+        d1 = e.cmd('DEFINE pay FIELDS { k: "int" }').get("out", "")
+        fcntl.flock(fd, fcntl.LOCK_UN); os.close(fd)
+        res["steps"].append("define-under-lock:" + ("200" if '"status":200' in d1 else "err"))
+        if c["retry"]:
+            d2 = e.cmd('DEFINE pay FIELDS { k: "int" }').get("out", "")
+            res["steps"].append("retry:" + ("200" if '"status":200' in d2 else "err"))
+        for k in range(1, c["nstores"] + 1):
+            r = e.cmd(f'STORE pay FOR c1 PAYLOAD {{"k": {k}}}').get("out", "")
+            if '"status":200' in r:
+                res["acked"].append(k)
+        q1 = e.rows("QUERY pay")
+        res["before"] = sorted(x["k"] for x in q1["rows"]) if q1["status"] == 200 else f"status {q1['status']}"
+        e.cmd("!wal_drained 3000")
+        e.restart()
+        q2 = e.rows("QUERY pay")
+        res["after"] = sorted(x["k"] for x in q2["rows"]) if q2["status"] == 200 else f"status {q2['status']} {q2.get('message')}"
+        res["ok"] = True
+    except Exception as ex:
+        res["err"] = f"{type(ex).__name__}: {ex}"
+    finally:
+        e.destroy()
+    return res
+
+
+def run_sides(cases_, model_ok):
+    sh = [c for c in cases_ if c.get("kind") != "define-fault"]
+    si, sm = shardprop.run_sides(sh, model_ok) if sh else ([], [])
+    it_s, it_m = iter(si), iter(sm)
+    impl, model = [], []
+    for c in cases_:
+        if c.get("kind") == "define-fault":
+            impl.append(_run_define_fault(c)); model.append(None)
+        else:
+            impl.append(next(it_s)); model.append(next(it_m))
+    return impl, model
+
+
+def same(c, impl, model):
+    return True if c.get("kind") == "define-fault" else shardprop.same(c, impl, model)
+
+
+def diffs(c, impl, model):
+    return [] if c.get("kind") == "define-fault" else shardprop.diffs(c, impl, model)
 
 
 def oracle(c, impl):
     """After any crash/restart every acknowledged+applied event is read exactly once (QUERY, REPLAY, COUNT);
     un-acknowledged ones may be present or absent, never duplicated."""
+    if c.get("kind") == "define-fault":
+        if not impl.get("ok"):
+            return "engine harness: " + str(impl.get("err"))
+        if impl["acked"] and impl.get("after") != sorted(impl["acked"]):
+            return (f"STOREs {impl['acked']} of event type pay were acknowledged ({', '.join(impl['steps'])}; read before the kill: "
+                    f"{impl.get('before')}), after kill + restart QUERY pay returns {impl.get('after')}")
+        return None
     if impl.get("line") is None:
         return None
     for n, o in enumerate(impl["obs"]):
@@ -131,6 +201,8 @@ def classify(c, impl, model=None):
 
 
 def nontrivial_key(c, impl):
+    if c.get("kind") == "define-fault":
+        return c["show"] if impl.get("ok") and impl.get("acked") else None
     if impl.get("obs") and any(o["dirs"] for o in impl["obs"]) and ("R" in [o[0] for o in c["ops"]] or impl.get("crashed")):
         return c["show"]
     return None
